@@ -2675,6 +2675,10 @@ func (pid *PID) setBehavior(behavior Behavior) {
 // resetBehavior is a utility function resets the actor behavior
 func (pid *PID) resetBehavior() {
 	pid.fieldsLocker.Lock()
+	// UnBecome clears any stacked or swapped behavior: pushing Receive on top of
+	// what is there left the old behaviors underneath, and a later
+	// UnBecomeStacked brought one of them back
+	pid.behaviorStack.Reset()
 	pid.behaviorStack.Push(pid.actor.Receive)
 	pid.fieldsLocker.Unlock()
 }
